@@ -22,7 +22,7 @@
 (*                  the target direction, finite, length preserved         *)
 (*  view            look_to / look_at: rigid (orthonormal, det +1), eye to *)
 (*                  the origin, dir to -Z / +Z, up into the +Y half of the *)
-(*                  YZ plane with roll error <= 2^9 u / |dir x up|         *)
+(*                  YZ plane with roll error <= 2^5 u / |dir x up|         *)
 (*  euler           from_euler(order, a, b, c) is the product of the three *)
 (*                  elementary rotations in the order the variant's name   *)
 (*                  spells (reversed for the Ex variants); the elementary  *)
@@ -137,17 +137,17 @@ ViewOk(ev) ==
            zs == IF ev.hand = "rh" THEN DyInt(-1) ELSE Dy1
            id == MatVec3(c, d)
            iu == MatVec3(c, u)
-           Small(x) == DyLe(DyMul(DySq(x), Lagrange(d, u)), DyPow2(2 * (9 - p))) IN
+           Small(x) == DyLe(DyMul(DySq(x), Lagrange(d, u)), DyPow2(2 * (5 - p))) IN
        /\ DyNear(VSq(d), Dy1, t1) /\ DyNear(VSq(u), Dy1, t1)                                       \* the recorded dir and up are unit vectors
        /\ DyLe(DyPow2(-20), Lagrange(d, u))                                                         \* ... and not parallel: |dir x up| >= 2^-10
        \* the side axis is normalize(dir x up): its direction carries an error of about u / |dir x up|, and so does everything that is
-       \* orthogonal by construction; |x| <= 2^9 u / |dir x up| is written x^2 |dir x up|^2 <= (2^9 u)^2 (no square root, no division)
+       \* orthogonal by construction; |x| <= 2^5 u / |dir x up| is written x^2 |dir x up|^2 <= (2^5 u)^2 (no square root, no division)
        /\ \A i \in 1..3 : DyNear(VSq(c[i]), Dy1, DyScale(t1, 2))                                   \* unit columns
        /\ \A i, j \in 1..3 : i < j => Small(VDot(c[i], c[j]))                                      \* mutually orthogonal
        /\ DyLt(DyPow2(-1), VDot(Cross3(c[1], c[2]), c[3]))                                          \* determinant +1, not -1
        /\ Small(id[1]) /\ Small(id[2]) /\ Small(DySub(id[3], zs))                                   \* the view direction goes to -Z / +Z
        /\ DyIsPos(iu[2])                                                                             \* up lands in the +Y half ...
-       /\ DyLe(DyMul(DySq(iu[1]), Lagrange(d, u)), DyPow2(2 * (9 - p)))                             \* ... of the YZ plane: |x| <= 2^9 u / |dir x up|
+       /\ DyLe(DyMul(DySq(iu[1]), Lagrange(d, u)), DyPow2(2 * (5 - p)))                             \* ... of the YZ plane: |x| <= 2^5 u / |dir x up|
        /\ ("t" \in DOMAIN ev) =>                                                                    \* matrix / affine forms: the eye goes to the origin
              LET e == DV(ev.eye) tr == DV(ev.t) ie == MatVec3(c, e) IN
              \A r \in 1..3 : DyNear(DyAdd(ie[r], tr[r]), Dy0, DyMul(t1, DyAdd(L1(e), Dy1)))
@@ -171,8 +171,10 @@ ProjOk(ev) ==
            /\ zero(m[1][2]) /\ zero(m[1][3]) /\ zero(m[1][4]) /\ zero(m[2][1]) /\ zero(m[2][3]) /\ zero(m[2][4])
            /\ zero(m[3][1]) /\ zero(m[3][2]) /\ zero(m[4][1]) /\ zero(m[4][2]) /\ zero(m[4][4])
            /\ DyCmp(m[3][4], zsgn) = 0                                                                \* clip w = -z (rh) / +z (lh)
-           /\ DyNear(DyMul(sy, t), Dy1, rel)                                                          \* y = d tan(fov/2) goes to +1
-           /\ DyNear(DyMul(DyMul(sx, t), a), Dy1, rel)                                                \* x = d tan(fov/2) aspect goes to +1
+           \* the field of view reaches the library as the floating-point number 2 atan(2^tj): its rounding alone moves cot(fov/2) by a
+           \* relative u (pi/2) 2^tj for wide angles, so the tolerance of the two focal terms grows with 2^tj
+           /\ DyNear(DyMul(sy, t), Dy1, DyMul(rel, DyAdd(Dy1, t)))                                    \* y = d tan(fov/2) goes to +1
+           /\ DyNear(DyMul(DyMul(sx, t), a), Dy1, DyMul(rel, DyAdd(Dy1, t)))                          \* x = d tan(fov/2) aspect goes to +1
            /\ CASE ev.conv = "gl" -> depthIs(n, DyNeg(n)) /\ depthIs(DecDy(ev.far), DecDy(ev.far))     \* near -> -1, far -> +1 (times w = d)
                 [] ev.conv = "zo" -> depthIs(n, Dy0) /\ depthIs(DecDy(ev.far), DecDy(ev.far))          \* near -> 0, far -> 1
                 [] ev.conv = "inf" -> depthIs(n, Dy0) /\ DyNear(DyMul(A, zsgn), Dy1, rel)              \* near -> 0, infinity -> 1
@@ -340,12 +342,28 @@ ArcOk(ev) ==
        /\ DyNear(VSq(q), Dy1, t)
        /\ IF ev.colinear = 1 THEN hits(b) \/ hits(VNeg(b)) ELSE hits(b)
 
+\* ---- slerp extrapolated to integer parameters k (outside [0, 1]): the rotation is the k-th power of the step from q0 to q1, so with
+\* D = <q0, q1> (exact from the logged operands):  <q0, r_k> = T_|k|(D)  and  <q1, r_k> = T_|k-1|(D); unit length ----------------------
+SlerpIntTol(ev) == IF ev.f = 32 THEN DyPow2(-10) ELSE DyPow2(-30)
+AbsI(n) == IF n < 0 THEN -n ELSE n
+SlerpIntOk(ev) ==
+    LET q0 == DV(ev.q0) q1 == DV(ev.q1) t == SlerpIntTol(ev) D == VDot(q0, q1) IN
+    /\ Len(ev.r) = Len(ev.ks) /\ \A j \in 1..Len(ev.r) : AllFinite(ev.r[j])
+    /\ DyNear(VSq(q0), Dy1, SlerpTol(ev)) /\ DyNear(VSq(q1), Dy1, SlerpTol(ev))
+    /\ DyIsPos(D)                                                                   \* the recorded pair is on the same hemisphere: no arc flip
+    /\ \A j \in 1..Len(ev.r) :
+          LET r == DV(ev.r[j]) k == ev.ks[j] IN
+          /\ DyNear(VSq(r), Dy1, t)
+          /\ DyNear(VDot(q0, r), Ch(ev, AbsI(k), D), t)
+          /\ DyNear(VDot(q1, r), Ch(ev, AbsI(k - 1), D), t)
+
 Ok(ev) ==
     CASE ev.op = "normalize" -> NormalizeOk(ev)
       [] ev.op = "angle_parallel" -> AngleParallelOk(ev)
       [] ev.op = "move_towards" -> MoveOk(ev)
       [] ev.op = "slerp8" -> Slerp8Ok(ev)
       [] ev.op = "vslerp8" -> VSlerp8Ok(ev)
+      [] ev.op = "slerp_int" -> SlerpIntOk(ev)
       [] ev.op = "rot_reach" -> RotReachOk(ev)
       [] ev.op = "rot_len" -> RotLenOk(ev)
       [] ev.op = "clamp_len" -> ClampLenOk(ev)
